@@ -396,7 +396,7 @@ Definition reduce_op (c : cfg) (e : expr) : outcome expr :=
     match x with
     | EBytes h | EHash h =>
       if (length h =? 28)%nat then Ok (EAddress (script_address (cfg_mainnet c) h))
-      else Panic "Hash::from(slice) length"
+      else Err "CoerceError"                     (* coercion::bytes_into_hash *)
     | _ => Err "CoerceError"
     end
   | EMinUtxo x => i <- expr_into_number 64 x ;; l <- cfg_min_utxo c i ;; Ok (fee_assets l)
